@@ -4,6 +4,10 @@ Parsed form: atoms are `str`, quoted strings are `Q` (a str subclass holding the
 latin-1 text, so every byte round-trips), lists are Python lists."""
 
 
+import sys
+sys.setrecursionlimit(50000)
+
+
 class Q(str):
     """a quoted string (bytes decoded as latin-1)"""
     __slots__ = ()
